@@ -57,7 +57,7 @@ V("C10-s-reorder", "C10", "silent", (ITY, "self.tableau_intermediate[stage, 1] *
 # ---- C11 -----------------------------------------------------------------------------------------
 V("C11-a-backward-euler-sign", "C11", ["C11.1", "C11.2"], (IMP, "        [[1.0, 1.0]], dtype=numpy.float64\n    )\n\n    tableau_final = numpy.array(\n        [[0, 1.0]], dtype=numpy.float64\n    )\n\n\nclass ImplicitMidpoint",
                                                           "        [[1.0, -1.0]], dtype=numpy.float64\n    )\n\n    tableau_final = numpy.array(\n        [[0, 1.0]], dtype=numpy.float64\n    )\n\n\nclass ImplicitMidpoint"))
-V("C11-b-lobattoC2", "C11", ["C11.1", "C11.2"], (IMP, "[[0.0, 0.5, -0.5],\n         [1.0, 0.5, 0.5]]", "[[0.0, 0.5, 0.5],\n         [1.0, 0.5, 0.5]]"))
+V("C01-k-lobattoC2-sign", "C01", ["C01.2"], (IMP, "[[0.0, 0.5, -0.5],\n         [1.0, 0.5, 0.5]]", "[[0.0, 0.5, 0.5],\n         [1.0, 0.5, 0.5]]"))
 V("C11-c-theta", "C11", ["C11.1"], (IMP, "        [[0.5, 0.5]], dtype=numpy.float64", "        [[0.4, 0.4]], dtype=numpy.float64"))
 V("C11-d-explicit-in-implicit", "C11", ["C11.0"], (IMP, "[[0, 0, 0],\n         [1.0, 0.5, 0.5]], dtype=numpy.float64\n    )\n\n    tableau_final = numpy.array(\n        [[0, 0.5, 0.5]], dtype=numpy.float64\n    )\n\n\nclass LobattoIIIA4",
                                                   "[[0, 0, 0],\n         [1.0, 1.0, 0.0]], dtype=numpy.float64\n    )\n\n    tableau_final = numpy.array(\n        [[0, 0.5, 0.5]], dtype=numpy.float64\n    )\n\n\nclass LobattoIIIA4"))
